@@ -522,6 +522,18 @@ def stress(wseed, binary, budget_s, auto=False):
     threads = [threading.Thread(target=writer, args=(i,)) for i in range(4)]
     try:
         ctl = srv.client(timeout=60)
+        # untouched keys at the edges of the dump's length encodings (6 bit / 14 bit / 32 bit): every dump
+        # taken under load must bring them back exactly - a length written wrong also derails what follows it
+        edge = {}
+        for n in (63, 64, 16383, 16384, 16385, 65536):
+            k = b"edge:str:%d" % n
+            ctl.cmd("SET", k, b"e" * n)
+            edge[k] = ("string", b"e" * n, False)
+        for n in (64, 16384):
+            k = b"edge:list:%d" % n
+            for i in range(0, n, 4096):
+                ctl.cmd("RPUSH", k, *[b"%d" % j for j in range(i, min(n, i + 4096))])
+            edge[k] = ("list", [b"%d" % j for j in range(n)], False)
         for t in threads:
             t.daemon = True
             t.start()
@@ -595,6 +607,12 @@ def stress(wseed, binary, budget_s, auto=False):
                         nsaves, resp.show(k), resp.show(list(gv), 40), got[2], resp.show([list(a) for a in admissible[:6]], 40)))
                     break
             res.count("stress_keys_checked", checked)
+            for k, want in edge.items():
+                got = loaded.get((0, k), ("none", None, False))
+                if (got[0], got[1], got[2]) != want:
+                    res.violation("stress/edge-length/%s" % k.decode(), "dump of BGSAVE #%d: untouched key %s (length at an encoding boundary) restored as %s" % (
+                        nsaves, resp.show(k), resp.show(list(got), 40)))
+                    break
         res.count("stress_saves", nsaves)
         res.cell("stress", "saves>5" if nsaves > 5 else "saves<=5")
         res.cell("stress", "auto-save-under-4-writers" if auto else "bgsave-under-4-writers")
